@@ -523,6 +523,7 @@ def check_flags(unit):
             x = '--' + f[4:]
             if x in fl:
                 fl.remove(x)
+            fl.append('--no-' + f[4:])     # CBMC 6 switches the standard checks on by default
         else:
             fl.append(f)
     if unit.get('unwind'):
